@@ -1,3 +1,4 @@
+import Heathcliff.Proofs.C04R
 import Heathcliff.Proofs.C04K
 import Heathcliff.Proofs.C04T
 import Heathcliff.Proofs.C01O
@@ -231,5 +232,90 @@ theorem applyGalois_phase_sigma_bgv : type_of% @HC.applyGalois_phase_sigma_bgv :
     `c04t_exKL` (N = 2, q = 13, P = 17, t = 5) with the genuine key `c04k_exKey` (s = 1 − X, s' = X, e = 1 − X), so the three branches
     of `switchKey_phase` and `applyGalois_phase` (with `c04k_LevelOf`, g = 3) apply there; the noise bound gives 17·|ν| ≤ 1·(13·(2·1)) + 8·(1 + 2) = 50, i.e. |ν| ≤ 2. -/
 theorem switchKey_phase_nonvacuous : type_of% @HC.switchKey_phase_nonvacuous := @HC.switchKey_phase_nonvacuous
+
+
+/-! ### rotations end to end: decoding commutes with sigma_g, batchDecode(sigma_{3^s} p) rotates the rows / sigma_{2N-1} swaps them, the model's applyGalois / rotatePlan results DECRYPT (model decryption) to the rotated slot matrix under explicit noise margins (BFV and BGV), CKKS integer-level corollary
+    (statements, hypothesis bundles and non-vacuity instances: Heathcliff/Proofs/C04R.lean, section "Property theorems") -/
+
+/-- R1, the INDEX / SIGN RULE of σ_g = `c04k_sigma (2^k) g` (g odd): coefficient i goes to index i·g mod N, negated iff ⌊i·g/N⌋ is odd -/
+theorem sigma_index_sign_rule : type_of% @HC.sigma_index_sign_rule := @HC.sigma_index_sign_rule
+
+/-- σ_h ∘ σ_g = σ_{g·h}; σ_g depends only on g mod 2N; ‖σ_g(e)‖∞ ≤ ‖e‖∞ -/
+theorem sigma_comp : type_of% @HC.sigma_comp := @HC.sigma_comp
+
+theorem sigma_mod : type_of% @HC.sigma_mod := @HC.sigma_mod
+
+theorem sigma_natAbs_le : type_of% @HC.sigma_natAbs_le := @HC.sigma_natAbs_le
+
+/-- R1 (BFV): for integer phases x, y (arrays of N = 2^k coefficients), any splitting t·x = Q·m + e with 2|e| < Q, and
+    y ≡ σ_g(x) + ν (mod Q): if 2|σ_g(e) + t·ν| < Q coefficient-wise then `Spec.bfvDecode t Q y` = σ_g(`Spec.bfvDecode t Q x`) mod t,
+    coefficient by coefficient -/
+theorem bfvDecode_sigma : type_of% @HC.bfvDecode_sigma := @HC.bfvDecode_sigma
+
+/-- … and the measured noise t·y − Q·round(t·y/Q) of the result is exactly σ_g(e) + t·ν -/
+theorem bfv_noise_sigma : type_of% @HC.bfv_noise_sigma := @HC.bfv_noise_sigma
+
+/-- R1 (BGV): y ≡ σ_g(x) + ν (mod Q), t ∣ ν, y centred, 2|σ_g(x) + ν| < Q ⇒ `Spec.bgvDecode t cf y` = σ_g(`Spec.bgvDecode t cf x`) mod t -/
+theorem bgvDecode_sigma : type_of% @HC.bgvDecode_sigma := @HC.bgvDecode_sigma
+
+/-- R2: for well-formed batching tables `t` (plain modulus prime, ≡ 1 mod 2N), a full-length canonical plaintext p and odd g, the model's
+    `galoisApply` succeeds with a canonical result r and slot i of `batchDecode r` is slot i' of `batchDecode p` whenever
+    slotExp(i)·g ≡ slotExp(i') (mod 2N) -/
+theorem batchDecode_galois : type_of% @HC.batchDecode_galois := @HC.batchDecode_galois
+
+/-- R2, rows: g ≡ 3^s (mod 2N), N ≥ 4 ⇒ both rows of the slot matrix rotate LEFT by s (`c04r_rotIdx`) -/
+theorem batchDecode_rotate_rows : type_of% @HC.batchDecode_rotate_rows := @HC.batchDecode_rotate_rows
+
+/-- R2, columns: g ≡ 2N − 1 (mod 2N), N ≥ 2 ⇒ the two rows are exchanged (`c04r_swapIdx`) -/
+theorem batchDecode_swap_rows : type_of% @HC.batchDecode_swap_rows := @HC.batchDecode_swap_rows
+
+/-- R2 for the element returned by the model's `eltFromStep` (signed steps; step 0 = columns) -/
+theorem batchDecode_eltFromStep : type_of% @HC.batchDecode_eltFromStep := @HC.batchDecode_eltFromStep
+
+theorem eltFromStep_slot : type_of% @HC.eltFromStep_slot := @HC.eltFromStep_slot
+
+/-- R3: exact phase (`Spec.phase`) of the `applyGalois` result ≡ σ_g(exact input phase) + ν modulo Q (BFV coefficient form / BGV NTT form) -/
+theorem applyGalois_spec_phase_bfv : type_of% @HC.applyGalois_spec_phase_bfv := @HC.applyGalois_spec_phase_bfv
+
+theorem applyGalois_spec_phase_bgv : type_of% @HC.applyGalois_spec_phase_bgv := @HC.applyGalois_spec_phase_bgv
+
+/-- R3, coefficient level: the model's decryption of the `applyGalois` result is σ_g(m) mod t, m the model's decryption of the input;
+    hypotheses: `Level.WF`, `DecOK`, `c04k_LevelOf`, `c04t_KSInput`, key equation `c04k_KeyEq` with s' = σ_g(s), input noise ≤ E, key-switch noise
+    ≤ V, and the BEHZ decode margin for E + t·V (BFV) resp. no wrap-around 2(X + V) < Q and t ∣ e_i (BGV).  Also returns the
+    noise bound E + t·V of the result (noises add) -/
+theorem applyGalois_decrypt_bfv : type_of% @HC.applyGalois_decrypt_bfv := @HC.applyGalois_decrypt_bfv
+
+theorem applyGalois_decrypt_bgv : type_of% @HC.applyGalois_decrypt_bgv := @HC.applyGalois_decrypt_bgv
+
+/-- R3, slot level: with g = `eltFromStep step`, the result decrypts to the plaintext whose slots are the input's rotated by `step`
+    (rows) / swapped (step 0) -/
+theorem rotate_rows_bfv : type_of% @HC.rotate_rows_bfv := @HC.rotate_rows_bfv
+
+theorem rotate_rows_bgv : type_of% @HC.rotate_rows_bgv := @HC.rotate_rows_bgv
+
+/-- the key-switching noise of one step from the explicit bound of `switchKey_noise_bound` -/
+theorem rotate_step_noise : type_of% @HC.rotate_step_noise := @HC.rotate_step_noise
+
+/-- R3 composed: `rotatePlan` — every element of the plan is in `keys`, odd, < 2N, and the product of the plan is 3^(steps mod N/2) mod 2N -/
+theorem rotatePlan_ok : type_of% @HC.rotatePlan_ok := @HC.rotatePlan_ok
+
+/-- a chain of `applyGalois` steps decrypts to σ_{Π gs}(m) mod t under the accumulated margin E + |gs|·t·V -/
+theorem rotate_chain_bfv : type_of% @HC.rotate_chain_bfv := @HC.rotate_chain_bfv
+
+/-- executing `rotatePlan`'s plan rotates the slot rows by `steps` -/
+theorem rotatePlan_rotate_bfv : type_of% @HC.rotatePlan_rotate_bfv := @HC.rotatePlan_rotate_bfv
+
+theorem rotatePlan_fuel0 : type_of% @HC.rotatePlan_fuel0 := @HC.rotatePlan_fuel0
+
+theorem rotatePlan_refuses_range : type_of% @HC.rotatePlan_refuses_range := @HC.rotatePlan_refuses_range
+
+theorem rotatePlan_zero : type_of% @HC.rotatePlan_zero := @HC.rotatePlan_zero
+
+theorem applyChain_error : type_of% @HC.applyChain_error := @HC.applyChain_error
+
+/-- R4 (CKKS): `rotate_vector(step)` = σ_{3^s}, conjugation = σ_{2N−1}, on the exact phase modulo every level modulus -/
+theorem ckks_rotate_phase : type_of% @HC.ckks_rotate_phase := @HC.ckks_rotate_phase
+
+
 
 end HC.C04
